@@ -742,7 +742,7 @@ impl H {
                 self.s.stats.count(&format!("gen.mut.{}", kind));
                 let cmd = Some(els);
                 let (r, op) = self.op_fromresp(&cmd);
-                if matches!(&r, Some(Ok(_))) {
+                if matches!(&r, Some(Ok(_))) && !surviving_strings(&cmd).1 {
                     self.fail(F8_CLUSTER, "F8", vec![op.clone()]);
                     self.s.stats.count("out.f8.cluster_accepted_invalid_element");
                 }
@@ -757,7 +757,7 @@ impl H {
                 self.s.stats.count("gen.mut.insert_invalid_element");
                 let cmd = Some(els);
                 let (r, op) = self.op_fromresp(&cmd);
-                if matches!(&r, Some(Ok(_))) {
+                if matches!(&r, Some(Ok(_))) && !surviving_strings(&cmd).1 {
                     self.fail(F8_CLUSTER, "F8", vec![op.clone()]);
                     self.s.stats.count("out.f8.cluster_accepted_invalid_element");
                 }
@@ -853,8 +853,9 @@ impl H {
                 let mut els = wrap_cmd("SETREPL", &args);
                 els[i + 2] = el;
                 self.s.stats.count(&format!("gen.mut.repl.{}", kind));
-                let (r, op) = self.op_repl(&Some(els));
-                if matches!(&r, Some(Ok(_))) {
+                let cmd = Some(els);
+                let (r, op) = self.op_repl(&cmd);
+                if matches!(&r, Some(Ok(_))) && !surviving_strings(&cmd).1 {
                     self.fail(F8_REPL, "F8", vec![op.clone()]);
                     self.s.stats.count("out.f8.repl_accepted_invalid_element");
                 }
@@ -866,8 +867,9 @@ impl H {
                 let at = if rng.chance(1, 3) { els.len() } else { i + 2 };
                 els.insert(at, el);
                 self.s.stats.count("gen.mut.repl.insert_invalid_element");
-                let (r, op) = self.op_repl(&Some(els));
-                if matches!(&r, Some(Ok(_))) {
+                let cmd = Some(els);
+                let (r, op) = self.op_repl(&cmd);
+                if matches!(&r, Some(Ok(_))) && !surviving_strings(&cmd).1 {
                     self.fail(F8_REPL, "F8", vec![op.clone()]);
                     self.s.stats.count("out.f8.repl_accepted_invalid_element");
                 }
@@ -915,7 +917,8 @@ impl H {
                 }
                 if rng.chance(1, 3) {
                     let (el, kind) = mutate_el(rng, &sargs[i]);
-                    let is_simple = matches!(el, El::S(_));
+                    // get_resp_strings takes bulk and simple strings that are valid UTF-8
+                    let is_simple = match &el { El::S(b) | El::B(b) => std::str::from_utf8(b).is_ok(), El::O(_) => false };
                     let mut els = wrap_cmd("TMPSWITCH", &sargs);
                     els[i + 2] = el;
                     self.s.stats.count(&format!("gen.mut.switch.{}", kind));
